@@ -270,7 +270,17 @@ def sig_inst_prefix(sc, o, clause, ident, diags):
     return ident in names and ident[2:] in o.children and not sc.gen.isInlinable(o.children[ident[2:]])
 
 def sig_stack_flags(sc, o, clause, ident, diags):
-    return clause == 'undriven' and type(o).__name__ == 'Stack_ShiftRegister' and ident in ('empty', 'full')
+    if clause == 'undriven' and type(o).__name__ == 'Stack_ShiftRegister' and ident in ('empty', 'full'): return True
+    if clause == 'multiple_drivers':
+        # follow-on seen from the parent: nothing inside drives the two flags, so py4hw cannot refuse one wire on both of them
+        for c in o.children.values():
+            if type(c).__name__ == 'Stack_ShiftRegister':
+                fl = [q for q in c.outPorts if q.name in ('empty', 'full')]
+                if len(fl) == 2 and fl[0].wire is fl[1].wire and sc.name_in(o, fl[0].wire) == ident: return True
+    return False
+
+def sig_memory_clock(sc, o, clause, ident, diags):
+    return clause == 'event' and ident == 'clk' and type(o).__name__ in ('SynchronousMemory', 'DualPortSynchronousMemory') and sc.clkname(o) != 'clk'
 
 SIGNATURES = {
     'scalar-bit-select': sig_scalar_select,
@@ -284,6 +294,7 @@ SIGNATURES = {
     'abs-structure-name-ignores-inverted': sig_abs_inverted,
     'port-named-like-implicit-clock': sig_port_named_clock,
     'stack-flags-undriven': sig_stack_flags,
+    'memory-body-hardcoded-clock': sig_memory_clock,
     'transpiler-keyword-variable': sig_keyword_variable,
     'transpiler-variable-port-collision': sig_variable_port_collision,
     'subborrowin-undefined-attribute': sig_subborrowin,
@@ -437,6 +448,9 @@ def stream(ctx):
     cases += D.behavioural()
     cases += D.behavioural_names(q, ctx.seed)
     cases += D.adversarial(q)
+    base = list(cases)
+    cases += D.own_domain(base, q)
+    cases += D.aliased_outputs(base, q)
     cases += D.generator_reuse(q)      # order matters inside this group: consecutive calls on one generator object
     return cases
 
